@@ -39,7 +39,7 @@ REQUIRED_BUCKETS = {"quick": ["a:float32", "a:float64", "a:longdouble", "b:fragm
                               "d:spelling", "c:dispersity-with-cutoff", "c:magnetic-2d", "switch:single-precision-libraries-not-allowed", "system-build:float32", "system-build:float64", "system-build:longdouble", "frag:adjacent-double", "frag:string", "frag:hexfloat", "frag:suffixed",
                               "frag:int-promotion", "frag:exponent-identifier", "frag:multiline-comment",
                               "c:q-exactly-zero", "c:q-exactly-on-particle-axes", "composite:with-python-component",
-                              "shipped:single!", "shipped:quad!", "shipped:double!", "two-precisions-built-at-the-same-time"]}
+                              "shipped:single!", "shipped:quad!", "shipped:double!", "two-precisions-built-at-the-same-time", "c:mesh>100"]}
 REQUIRED_BUCKETS["thorough"] = REQUIRED_BUCKETS["quick"]
 
 FUNCS = set("sin cos tan asin acos atan sinh cosh tanh asinh acosh atanh atan2 erf erfc tgamma exp exp2 exp10 expm1 "
@@ -400,6 +400,18 @@ def run_build(case, rec):
                                             "max_rel_err": core.maxrel(Jx, J64, 1e-10*sc_)},
                           key="C15/float32-disagrees/%s" % name if d == "float32" else None)
             rec.bucket("c:dispersity-with-cutoff")
+            # a mesh of more than 100 points (the compiled kernel is re-entered with its running sums, which have the
+            # requested precision too)
+            pdb = dict(pdp, **{p_.name + "_pd_n": 150})
+            B64 = np.asarray(direct_model.call_kernel(k64, dict(pdb)), float)
+            Bx = np.asarray(direct_model.call_kernel(kx, dict(pdb)), float)
+            scb = float(np.max(np.abs(B64 - bg))) if len(B64) else 1.0
+            okb = core.close(Bx, B64, 2e-3 if d == "float32" else 1e-4, (1e-5 if d == "float32" else 1e-6)*scb + 1e-6)
+            rec.check("builds_and_agrees_with_double", okb,
+                      None if okb else {"model": name, "dtype": d, "dispersed": p_.name, "mesh_points": 150, "double": B64, "other": Bx,
+                                        "max_rel_err": core.maxrel(Bx, B64, 1e-10*scb)},
+                      key="C15/float32-disagrees/%s" % name if d == "float32" else None)
+            rec.bucket("c:mesh>100")
     # 2-D with a magnetised SLD: the magnetic branch of the kernel template in the requested precision
     if i.parameters.nmagnetic > 0:
         slds_ = [p_.name for p_ in i.parameters.call_parameters if p_.type == "sld" and p_.name in sas.active_names(i, pars)]
@@ -581,8 +593,16 @@ def run_shipped(case, rec):
         "    I2 = direct_model.call_kernel(m2.make_kernel(q), {})\n"
         "    out[how] = {'dtype': str(np.dtype(m2.dtype)) if getattr(m2, 'dtype', None) is not None else None,"
         " 'result_dtype': str(np.asarray(I2).dtype), 'I': [float(x) for x in I2]}\n"
-        "print('RTMOUT ' + json.dumps(out))\n" % (name, spelling))
-    env = dict(os.environ, SAS_DLL_PATH=os.path.join(os.environ.get("RTM_SCRATCH", tempfile.gettempdir()), "shipped-dll"))
+        "import os\n"
+        "m3 = core.load_model(%r, dtype=%r, platform='dll')\n"
+        "os.remove(m3.dllpath)\n"          # the cache is cleaned between loading the model and its first use
+        "try:\n"
+        "    I3 = direct_model.call_kernel(m3.make_kernel(q), {})\n"
+        "    out['cache_cleaned'] = {'dtype': str(np.dtype(m3.dtype)), 'I': [float(x) for x in I3]}\n"
+        "except Exception as exc:\n"
+        "    out['cache_cleaned'] = {'refused': repr(exc)[:200]}\n"
+        "print('RTMOUT ' + json.dumps(out))\n" % (name, spelling, name, spelling))
+    env = dict(os.environ, SAS_DLL_PATH=os.path.join(os.environ.get("RTM_SCRATCH", tempfile.gettempdir()), "shipped-dll-%d" % os.getpid()))
     r = subprocess.run([core.PY, "-c", prog], capture_output=True, text=True, timeout=600, env=env)
     out = None
     for line in r.stdout.splitlines():
@@ -598,6 +618,12 @@ def run_shipped(case, rec):
             rec.check("shipped_model_keeps_precision", ok,
                       None if ok else {"model": name, "spelling": spelling, "how": how, "built": {"dtype": out["dtype"], "I": out["I"]},
                                        "shipped": o}, key="C15/shipped-model-loses-precision")
+        cc = out.get("cache_cleaned") or {}
+        okc = ("refused" in cc) or (cc.get("I") == out["I"] and cc.get("dtype") == out["dtype"])
+        rec.check("shipped_model_keeps_precision", okc,
+                  None if okc else {"model": name, "spelling": spelling, "how": "library file removed between load_model and first use",
+                                    "built": {"dtype": out["dtype"], "I": out["I"]}, "after": cc}, key="C15/shipped-model-loses-precision")
+        rec.bucket("shipped:cache-cleaned:" + ("refused" if "refused" in cc else "rebuilt"))
     rec.bucket("shipped:" + spelling)
     rec.set_shape(("shipped", name, spelling), True)
 
